@@ -106,3 +106,24 @@ VARIANTS += [
     silent("c16-range-step-guard-other-spelling",
            [(RG, '        if step == 0:\n            raise JaqalError("Slice step cannot be zero.")\n        return len(range(start, stop, step))', '        if 0 == step:\n            raise JaqalError("Slice step cannot be zero.")\n        return len(range(start, stop, step))')], ("C16",)),
 ]
+
+WKR = "src/jaqalpaq/core/algorithm/walkers.py"
+VARIANTS += [
+    # reverting fix a34ba74
+    fire("c16-zero-count-loop-not-skipped",
+         [(WKR, "        if loop.iterations <= 0:\n", "        if False:\n")],
+         ("C16.15", "TraceVisitor.visit_LoopStatement:zero-trip"), ("C16",)),
+    silent("c16-zero-count-loop-other-spelling",
+           [(WKR, "        if loop.iterations <= 0:\n", "        if loop.iterations < 1:\n")], ("C16",)),
+]
+
+IMPF = "src/jaqalpaq/_import.py"
+VARIANTS += [
+    # reverting fix 50f0535 (evictions not restored)
+    fire("c16-evicted-modules-not-restored",
+         [(IMPF, "            for k, v in evicted.items():\n                sys.modules.setdefault(k, v)\n            raise", "            raise")],
+         ("C16.16", "jaqal_import:sys.modules-evict"), ("C16",)),
+    fire("c16-half-initialised-module-left",
+         [(IMPF, "        if sys.modules.get(mod_name) is module:\n            del sys.modules[mod_name]\n        raise", "        raise")],
+         ("*", "_import"), ("C16",)),
+]
